@@ -45,6 +45,18 @@ CLAIMS["C01"] = dict(
     note="Proved: range desugaring only. Decided by execution oracle, not by a theorem: conversion of every other construct (the Convert model of DESIGN §4 is not built). The reference interpreter (tools/gen_prog.py Interp) is part of the trusted base.",
     technique="Lean 4 proof (range desugaring, regenerated constants) + CPython execution oracle vs reference interpreter",
     design="§5 C01")
+CLAIMS["C11"] = dict(
+    text="Lean theorems on a model of how convert_def consumes the option (annotate_inert_fun, return_decision_inert, off_emits_no_annotation): for every function/definition shape the two conversions agree once annotations are erased and the implicit-return decision does not depend on the option. "
+         "What that decision reads (retDecision) and the complete list of places where the generate stage reads the option are regenerated from the Rust source on every run; the translator refuses any read that is not one of the modelled annotation-field guards and any mention of the option outside the generate stage. End to end, verdict equality and equality of the Python ASTs after erasing annotations and typing imports are decided by an oracle on generated programs and repository samples.",
+    note="The model covers exactly the three annotation guards and the return decision of definition.rs; the claim that nothing else reads the option rests on the translator's syntactic scan (trusted) and the end-to-end oracle.",
+    technique="Lean 4 proof over regenerated model of the option's read sites + erased-AST oracle",
+    design="§5 C11")
+CLAIMS["C02"] = dict(
+    text="CPython's acceptance of the emitted text cannot be replaced by a Lean model; it is decided by compile() of every module emitted for repository samples, generated programs and their token-level mutants, both annotate settings. The Lean part proves the separator mechanism every list in the printer goes through (comma_delimited_spec: for all item lists without empty or white-space-terminated items the remove-and-trim trick yields exactly the items separated by ', '; the empty item is a proved witness that the guard is needed), "
+         "and the model of that function is tied to the real one by a correspondence through Core::TupleLiteral on item lists that include the excluded shapes.",
+    note="Proved: comma_delimited only. Decided by the CPython oracle, not proved: layout (indentation, pass insertion), literal validity, statement grammar. Known shapes outside the guard are exercised by the correspondence.",
+    technique="CPython compile() oracle + Lean 4 proof of the printer's separator mechanism + correspondence",
+    design="§5 C02")
 NOT_YET = {}
 ALL = ["C%02d" % i for i in range(1, 21)]
 
